@@ -14,6 +14,7 @@ def register(reg):
     register_proxies(reg)
     register_strings(reg)
     register_tree(reg)
+    register_formats(reg)
 
     @reg.specfun("as_bytes")
     def as_bytes(ex, st, args, cx):
@@ -115,6 +116,7 @@ def register_core(reg):
     unint("tree_rel", 4)     # tree_rel(t, c, virtual, mask): t is the rendering of configuration c (defined by to_tree's clauses)
     unint("basic_rel", 4)    # basic_rel(f, cfg, v, b): b is field f's on-disk form of value v (outcome of f.to_basic)
     unint("item_norm", 3)    # item_norm(proxy, x, v): v is the list proxy's validated form of x (outcome of ListProxy._validate)
+    unint("in_tree", 2)      # in_tree(t, r): object r is a node (dict/list) of the plain-data tree t
     unint("accepts", 2)
 
     def unstr(name, n):
@@ -263,3 +265,14 @@ def register_tree(reg):
         getter = st.rd("VirtualField.getter", V.r(f))
         virt = w.fun("usercall1_res", "V", "V", "V")(getter, cfg.e)
         return SV(z3.If(o.is_type(f, "ref:VirtualFieldMixin"), virt, stored))
+
+
+def register_formats(reg):
+    def attr(name, ghost, ty=None):
+        @reg.specfun(name)
+        def f(ex, st, args, cx, ghost=ghost):
+            return SV(st.rd(ghost, ex.o.r(args[0])), ty)
+    attr("pf_name", "$pf_arg0")
+    attr("pf_kwargs", "$pf_kwargs")
+    attr("fmt_name", "$fmt_name")
+    attr("fmt_opts", "$fmt_opts")
